@@ -115,6 +115,15 @@ func (mi *MessageInfo) initOneofFieldCoders(od protoreflect.OneofDescriptor, si 
 			}
 			return info.funcs.isInit(p, info)
 		}
+		// The unmarshal loops consult the isInit function of the field they
+		// just decoded to learn whether the result may be uninitialized, so
+		// every member that can hold required fields needs one, not just the
+		// first member of the oneof.
+		for _, cf := range oneofFields {
+			if cf.funcs.isInit != nil && mi.coderFields[cf.num] != first {
+				mi.coderFields[cf.num].funcs.isInit = first.funcs.isInit
+			}
+		}
 	}
 }
 
